@@ -52,7 +52,13 @@ ParsesJsonl(s) == Parses(s) \/ s = "empty"
 AcceptFull == IF AsImplemented THEN st["full"] \in {"synced", "stale"} ELSE Complete(st["full"])
 TailConsistent == \/ (st["mr"] \in {"synced", "partial"} /\ st["mrord"] \in {"synced", "partial"})
                   \/ (st["mr"] = "stale" /\ st["mrord"] = "stale")
-AcceptCount == IF AsImplemented THEN Parses(st["mr"]) /\ Parses(st["mrord"]) /\ TailConsistent
+\* a messages+runs sidecar that is missing or does not parse is rebuilt from the full sidecar when that one is accepted
+\* (rebuild_messages_runs_from_full_sidecar_best_effort_v1); the ordinal index next to it is left as it is
+MrRebuilt == AsImplemented /\ ~ParsesJsonl(st["mr"]) /\ st["full"] # "absent" /\ AcceptFull
+EffMr == IF MrRebuilt THEN "synced" ELSE st["mr"]
+TailConsistentEff == \/ (EffMr \in {"synced", "partial"} /\ st["mrord"] \in {"synced", "partial"})
+                     \/ (EffMr = "stale" /\ st["mrord"] = "stale")
+AcceptCount == IF AsImplemented THEN Parses(EffMr) /\ Parses(st["mrord"]) /\ TailConsistentEff
                ELSE Complete(st["mr"]) /\ Complete(st["mrord"])
 \* an absent derived sidecar is rebuilt from the full sidecar when that one exists (ensure_... functions): trusted as the full one is
 DerivedOK(f) == IF st[f] = "absent" THEN (st["full"] # "absent" /\ AcceptFull) ELSE
@@ -62,7 +68,7 @@ AcceptComp == DerivedOK("comp")
 \* which queries can be answered from which accepted caches; a query is transparent iff every cache it
 \* accepts is complete (or was derived from a complete full sidecar)
 FullTrusted  == AcceptFull /\ ~Complete(st["full"])
-CountTrusted == AcceptCount /\ ~(Complete(st["mr"]) /\ Complete(st["mrord"]))
+CountTrusted == AcceptCount /\ ~(Complete(EffMr) /\ Complete(st["mrord"]))
 CompTrusted  == AcceptComp /\ ~(Complete(st["comp"]) \/ (st["comp"] = "absent" /\ Complete(st["full"])))
 \* the context compiler reads the messages+runs tail and the checkpoint index directly: a file that exists and
 \* parses is trusted there without any cross-check
